@@ -49,6 +49,9 @@ type rdType struct {
 type rdPkg struct {
 	Name  string   `json:"name"`
 	Types []rdType `json:"types"`
+	// OptOut: name of one more exported struct type whose own doc carries +gengo:runtimedoc=false (nothing is asserted about it;
+	// every other type of the package is covered as before)
+	OptOut string `json:"optout,omitempty"`
 }
 
 type c16Case struct {
@@ -306,6 +309,9 @@ func genRDPkg(t *rapid.T, idx int) rdPkg {
 		}
 		p.Types = append(p.Types, ty)
 	}
+	if rapid.IntRange(0, 2).Draw(t, "optout") == 0 {
+		p.OptOut = rapid.SampledFrom([]string{"AaSwitchedOff", "Type1SwitchedOff", "Type4SwitchedOff", "ZzSwitchedOff"}).Draw(t, "optoutname")
+	}
 	return p
 }
 
@@ -344,6 +350,9 @@ func (p rdPkg) source() string {
 				break
 			}
 		}
+	}
+	if p.OptOut != "" {
+		fmt.Fprintf(b, "\n// %s opts out of the generator.\n// +gengo:runtimedoc=false\ntype %s struct {\n\t// Kept is documented all the same\n\tKept int\n}\n", p.OptOut, p.OptOut)
 	}
 	for _, ty := range p.Types {
 		b.WriteString("\n")
@@ -674,6 +683,9 @@ func oracleC16(c c16Case) error {
 func c16Features(c c16Case) []string {
 	fs := map[string]bool{}
 	for _, p := range c.Pkgs {
+		if p.OptOut != "" {
+			fs["a-type-opts-out-with-runtimedoc=false"] = true
+		}
 		for _, ty := range p.Types {
 			fs["kind-"+ty.Kind] = true
 			esc := false
